@@ -344,4 +344,22 @@ def replay(ctx, rp):
         _cleanup()
 
 
-TRIGGERS = {}
+def _c1_of(v):
+    import re as _re
+    m = _re.search(r"c1='((?:[^'\\]|\\.)*)'", str(v.get("observed", "")))
+    return m.group(1).encode().decode("unicode_escape", "ignore") if m else ""
+
+
+def trig_multiword_in_pattern(case, v):
+    """the canonical text holds a constraint pattern ([... ∧ ...]) whose example part is a bare multi-word value"""
+    import re as _re
+    c1 = _c1_of(v).encode("latin-1", "ignore").decode("utf-8", "ignore") if False else _c1_of(v)
+    return isinstance(case, list) and case[0] == "list" and any(t in ("&", "∧") for t in case[2]) and bool(_re.search(r"\[[^\]\n]*\S [^\]\n]*", c1))
+
+
+def trig_vs_as_key(case, v):
+    import re as _re
+    return bool(_re.search(r"(^|\n)\s*vs::", _c1_of(v)))
+
+
+TRIGGERS = {"multiword_in_pattern": trig_multiword_in_pattern, "vs_as_key": trig_vs_as_key}
